@@ -1,11 +1,37 @@
 import NavisModel.Drv.Proto
-import NavisModel.Model.Forest
+import NavisModel.Drv.Forest
+import NavisModel.Model.StrahlerSweep
 /-! Extension commands for C04 (line protocol prefix `c04x.`). -/
 namespace Navis.Drv.C04Ext
+open Navis.Forest Navis.Proto Navis.Drv.Forest Navis.Sweep
 
-def run (cmd _rest : String) : Option String :=
+def parsePick (s : String) : Option (St → Nat) :=
+  match s.splitOn ":" with
+  | ["first"] => some pickFirst
+  | ["last"] => some pickLast
+  | ["mix", k] => k.toNat?.map pickMix
+  | _ => none
+
+def showCol (t : Table) (f : Int → Nat) : String :=
+  " ".intercalate ((sortedInts (ids t)).map fun i => s!"{i}={f i}")
+
+def run (cmd rest : String) : Option String :=
   match cmd with
   | "ping" => some "pong-c04x"
+  | "sweep" => do
+    -- "greedy ign|- mintwig pick" | table (with the implementation's labels)
+    --   → the Python Strahler sweep as written, under the given pop order; `ERR` = KeyError / no termination
+    let (a, tb) ← split2 rest
+    let t ← parseTable tb
+    match words a with
+    | [g, ig, mt, pk] => do
+      let ign ← if ig == "-" then some [] else intList? ig
+      let mt ← mt.toNat?
+      let pick ← parsePick pk
+      match sweep t (g == "1") (ignoreList t ign mt) pick with
+      | some col => pure (showCol t col)
+      | none => pure "ERR"
+    | _ => none
   | _ => none
 
 end Navis.Drv.C04Ext
